@@ -34,19 +34,19 @@ SPEC = {
              "distinct = hash of the case."),
     "floors": {"TestScenarioGun/post_header_substr": 0.15, "TestScenarioGun/post_jsonpath": 0.15, "TestScenarioGun/post_xpath": 0.15,
                "TestScenarioGun/post_assert": 0.15, "TestHTTPGun/mis_reset": 0.05, "TestHTTPGun/mis_bad_chunk": 0.05,
-               "TestHTTPGun/mis_huge": 0.05, "TestHTTPGun/mis_stall": 0.05, "TestGRPCGuns/grpc_scenario_gun": 0.3,
+               "TestHTTPGun/mis_huge": 0.05, "TestHTTPGun/mis_stall": 0.05, "TestGRPCGuns/grpc_scenario_gun": 0.22,
                "TestScenarioGun/substr_negative_index": 0.08, "TestScenarioGun/substr_negative_index_beyond_value": 0.03,
                "TestHTTP2Gun/hs_internal_error": 0.04, "TestHTTP2Gun/hs_unrecognized_name": 0.04, "TestHTTP2Gun/hs_protocol_version": 0.04,
                "TestHTTP2Gun/hs_close": 0.04, "TestHTTP2Gun/h2_good_after_tls_alert": 0.15, "TestHTTP2Gun/h2_shared_client": 0.15,
                "TestHTTP2Gun/h2_mis_kill_conn": 0.03, "TestHTTP2Gun/h2_mis_abort": 0.05, "TestHTTP2Gun/target_without_h2": 0.03,
-               "TestHTTP2ScenarioGun/h2_good_after_tls_alert": 0.2, "TestHTTP2ScenarioGun/hs_internal_error": 0.08,
-               "TestHTTP2ScenarioGun/post_header_substr": 0.1,
-               "TestHTTPGun/connect_gun": 0.2, "TestHTTPGun/connect_ssl": 0.08, "TestHTTPGun/target_goes_away": 0.15,
-               "TestHTTPGun/target_never_up": 0.03, "TestHTTPGun/refused_seen": 0.12, "TestHTTPGun/refused_after_served": 0.08,
-               "TestHTTPGun/connect_gun_refused": 0.04, "TestHTTPGun/connect_ssl_refused": 0.02,
-               "TestScenarioGun/xpath_expr_nodeset_numeric": 0.15, "TestScenarioGun/xpath_expr_scalar": 0.02,
-               "TestScenarioGun/xpath_expr_plain": 0.04, "TestScenarioGun/xpath_nodeset_numeric_on_non_numeric_page": 0.03,
-               "TestScenarioGun/xpath_nodeset_numeric_on_numeric_page": 0.02},
+               "TestHTTP2ScenarioGun/h2_good_after_tls_alert": 0.16, "TestHTTP2ScenarioGun/hs_internal_error": 0.08,
+               "TestHTTP2ScenarioGun/post_header_substr": 0.052,
+               "TestHTTPGun/connect_gun": 0.14, "TestHTTPGun/connect_ssl": 0.062, "TestHTTPGun/target_goes_away": 0.1,
+               "TestHTTPGun/target_never_up": 0.03, "TestHTTPGun/refused_seen": 0.088, "TestHTTPGun/refused_after_served": 0.05,
+               "TestHTTPGun/connect_gun_refused": 0.025, "TestHTTPGun/connect_ssl_refused": 0.0094,
+               "TestScenarioGun/xpath_expr_nodeset_numeric": 0.12, "TestScenarioGun/xpath_expr_scalar": 0.012,
+               "TestScenarioGun/xpath_expr_plain": 0.027, "TestScenarioGun/xpath_nodeset_numeric_on_non_numeric_page": 0.03,
+               "TestScenarioGun/xpath_nodeset_numeric_on_numeric_page": 0.012},
     "manifest": {
         "technique": "fault-injection property testing (rapid): generated misbehaving response histories against the real guns and engine",
         "text": ("Whatever the generated history, Engine.Run must return nil (no 'shoot panic', no component error), every attempted "
